@@ -14,6 +14,7 @@ import (
 	"path/filepath"
 	"regexp"
 	"sort"
+	"strconv"
 	"strings"
 	"time"
 
@@ -348,18 +349,40 @@ func runCheck(id, tier string, o RunOpts) int {
 	for _, a := range spec.also {
 		isAlso["vfH_"+a] = true
 	}
+	// The thorough tier is two passes per harness: (1) the quick family, explored completely —
+	// this part must be conclusive; (2) the larger thorough family, explored within a wall-clock
+	// budget per harness. Where pass 2 completes the thorough bounds hold; where it is cut off (or
+	// a solver query times out) the evidence says so under deep_exploration and the claim for
+	// that harness is the quick bound plus bug hunting beyond it. Violations found in either
+	// pass are reported the same way. Cross-listed harnesses run pass 1 only.
+	deepBudget := 300
+	if s := os.Getenv("VF_DEEP_S"); s != "" {
+		deepBudget, _ = strconv.Atoi(s)
+	}
 	for _, h := range harnesses {
-		ho := o
-		if isAlso[h] {
-			// a cross-listed harness runs at its quick bounds; its thorough bounds belong to the
-			// check of the property it is named after
+		onlyDeep := strings.HasSuffix(h, "_thorough")
+		if !onlyDeep {
+			ho := o
 			ho.tier = 0
+			if tier == "thorough" {
+				ho.maxWallS = 3600
+			}
+			r := runHarness(p, h, ho)
+			r.Tier = 0
+			results = append(results, r)
+			fmt.Printf("harness %s: paths=%d decisions=%d queries=%d (unsat %d sat %d unknown %d) solver=%.1fs wall=%.1fs findings=%d inconclusive=%d\n",
+				h, r.Paths, r.Decisions, r.Queries, r.QUnsat, r.QSat, r.QUnknown, r.SolverS, r.WallS, len(r.Findings), len(r.Incon))
 		}
-		r := runHarness(p, h, ho)
-		r.Tier = ho.tier
-		results = append(results, r)
-		fmt.Printf("harness %s: paths=%d decisions=%d queries=%d (unsat %d sat %d unknown %d) solver=%.1fs wall=%.1fs findings=%d inconclusive=%d\n",
-			h, r.Paths, r.Decisions, r.Queries, r.QUnsat, r.QSat, r.QUnknown, r.SolverS, r.WallS, len(r.Findings), len(r.Incon))
+		if tier == "thorough" && !isAlso[h] {
+			ho := o
+			ho.tier = 1
+			ho.maxWallS = deepBudget
+			r := runHarness(p, h, ho)
+			r.Tier, r.Deep = 1, true
+			results = append(results, r)
+			fmt.Printf("harness %s (deep pass, budget %ds): paths=%d queries=%d (unsat %d sat %d unknown %d) wall=%.1fs findings=%d complete=%v\n",
+				h, deepBudget, r.Paths, r.Queries, r.QUnsat, r.QSat, r.QUnknown, r.WallS, len(r.Findings), !r.PathBudget && len(r.Incon) == 0)
+		}
 	}
 	nr := <-nrCh
 	defer nr.close()
@@ -382,31 +405,45 @@ func runCheck(id, tier string, o RunOpts) int {
 	findingFiles := map[string]*Finding{}
 	findingHarness := map[string]*HarnessResult{}
 
+	deepNotes := map[string]interface{}{}
 	for _, r := range results {
 		fn := p.pkg.Func(r.Name)
 		reach, asserts := map[string]bool{}, map[string]bool{}
 		scanLabels(fn, map[*ssa.Function]bool{}, reach, asserts)
-		for l := range reach {
-			if !r.Reached[l] {
-				problems = append(problems, fmt.Sprintf("%s: vacuous — vfReach(%q) has no feasible path", r.Name, l))
+		if r.Deep {
+			// second pass of the thorough tier: incompleteness is recorded, not a failure of the check
+			status := "complete: the thorough bounds hold for this harness"
+			if r.PathBudget || len(r.Incon) > 0 || r.QUnknown > 0 {
+				status = "incomplete: claim for this harness is the quick bound (pass 1, complete) plus bug hunting in the larger family"
 			}
-		}
-		for l := range asserts {
-			if r.Asserted[l] == 0 && r.FindingCnt[l] == 0 {
-				problems = append(problems, fmt.Sprintf("%s: assertion %q was never evaluated", r.Name, l))
+			deepNotes[r.Name] = map[string]interface{}{"status": status, "paths": r.Paths, "ends": r.Ends, "wall_s": r.WallS,
+				"budget_exhausted": r.PathBudget, "solver_unknown": r.QUnknown, "inconclusive": r.Incon, "findings": len(r.Findings)}
+			for _, e := range r.SolverErrs {
+				problems = append(problems, r.Name+" (deep pass): solver error line: "+e)
 			}
-		}
-		if r.Ends["ok"]+r.Ends["exit"] == 0 {
-			problems = append(problems, fmt.Sprintf("%s: no path ran to completion (%v)", r.Name, r.Ends))
-		}
-		for _, s := range r.Incon {
-			problems = append(problems, r.Name+": "+s)
-		}
-		if r.PathBudget {
-			problems = append(problems, r.Name+": path or wall-clock budget exhausted (exploration incomplete)")
-		}
-		for _, e := range r.SolverErrs {
-			problems = append(problems, r.Name+": solver error line: "+e)
+		} else {
+			for l := range reach {
+				if !r.Reached[l] {
+					problems = append(problems, fmt.Sprintf("%s: vacuous — vfReach(%q) has no feasible path", r.Name, l))
+				}
+			}
+			for l := range asserts {
+				if r.Asserted[l] == 0 && r.FindingCnt[l] == 0 {
+					problems = append(problems, fmt.Sprintf("%s: assertion %q was never evaluated", r.Name, l))
+				}
+			}
+			if r.Ends["ok"]+r.Ends["exit"] == 0 {
+				problems = append(problems, fmt.Sprintf("%s: no path ran to completion (%v)", r.Name, r.Ends))
+			}
+			for _, s := range r.Incon {
+				problems = append(problems, r.Name+": "+s)
+			}
+			if r.PathBudget {
+				problems = append(problems, r.Name+": path or wall-clock budget exhausted (exploration incomplete)")
+			}
+			for _, e := range r.SolverErrs {
+				problems = append(problems, r.Name+": solver error line: "+e)
+			}
 		}
 		for f := range r.Funcs {
 			funcs[f] = true
@@ -426,7 +463,7 @@ func runCheck(id, tier string, o RunOpts) int {
 			assertLabels[r.Name+"/"+l] += n
 		}
 		for i, w := range r.Witnesses {
-			f := filepath.Join(nr.dir, fmt.Sprintf("w-%s-%d.json", r.Name, i))
+			f := filepath.Join(nr.dir, fmt.Sprintf("w-%s-t%d-%d.json", r.Name, r.Tier, i))
 			mf := modelFile{Harness: r.Name, Kind: "witness", Vars: w.Model, Arrays: w.Arrays, Tier: r.Tier}
 			b, _ := json.Marshal(mf)
 			if nr.dir != "" {
@@ -585,9 +622,10 @@ func runCheck(id, tier string, o RunOpts) int {
 			"every assertion is an SMT query PC ∧ ¬cond over all input values within the stated bounds",
 		"harnesses":              harnesses,
 		"cross_listed_harnesses": spec.also,
+		"deep_exploration":       deepNotes,
 		"functions_encoded":      fl,
 		"source_hashes":          srcHash,
-		"bounds":                 spec.bounds[tier],
+		"bounds":                 boundsText(spec, tier, deepBudget),
 		"outside_the_claim":      spec.outside,
 		"stubs_used":             spec.stubs,
 		"queries":                map[string]int{"total": totals["queries"], "unsat": totals["unsat"], "sat": totals["sat"], "unknown": totals["unknown"]},
@@ -732,4 +770,15 @@ func replayFile(path string) int {
 		return 1
 	}
 	return 0
+}
+
+func boundsText(spec *checkSpec, tier string, deepBudget int) string {
+	if tier != "thorough" {
+		return spec.bounds[tier]
+	}
+	t := spec.bounds["thorough"]
+	if t == "same" || strings.HasPrefix(t, "same ") {
+		t = spec.bounds["quick"] + " — thorough: " + t
+	}
+	return fmt.Sprintf("pass 1 (complete, conclusive): the quick bounds — %s || pass 2 (larger family, at most %d s of wall clock per harness): %s. Pass 2 is reported per harness under deep_exploration: 'complete' means the thorough bounds hold, 'incomplete' (budget hit or a solver query timed out) means the claim for that harness is the quick bound plus bug hunting beyond it; an incomplete pass 2 is never counted as a pass of the larger bounds.", spec.bounds["quick"], deepBudget, t)
 }
